@@ -93,6 +93,12 @@ func genC07(t *rapid.T) c07Case {
 		}
 	}
 	key := rapid.SliceOfN(rapid.Byte(), n, n).Draw(t, "key")
+	switch rapid.IntRange(0, 9).Draw(t, "keyContent") {
+	case 0: // key bytes that are themselves encoded text, or constant: gen.Key's content kinds (base32 / hex / decimal text, zeros, 0xff)
+		key = gen.Key().Draw(t, "keyOfKinds")
+	case 1: // the first n characters of a base32 text: a key that reads as a secret once more
+		key = []byte(ref.B32(append(key, make([]byte, 8)...)))[:n]
+	}
 	sp := gen.Spelling{
 		Pad:   rapid.IntRange(0, 2).Draw(t, "spPad"),
 		PadN:  rapid.IntRange(0, 7).Draw(t, "spPadN"),
